@@ -644,7 +644,7 @@ class Translator:
         return self.objs[v][which] if v in self.objs else v
 
     def is_nda(self, v):
-        return v in self.nda or v in self.slotvars or v in self.cont or self.kind.get(v) == "pyc"
+        return v in self.nda or v in self.slotvars or v in self.cont
 
     def xr_operands(self, vals):
         """the variables among `vals` that may hold an xarray object"""
@@ -1257,6 +1257,15 @@ class Eval(Translator):
             if name in ("xr.zeros_like", "xr.ones_like", "xr.full_like", "xr.empty_like"):
                 xs = self.xr_operands(args[:1] or [kwargs.get("other", SC)])
                 return self.build_from("like", name.split(".")[-1], xs, data_src=None) if xs else self.fresh("like")
+            if name == "xr.Dataset":
+                # a Dataset keeps the variables it is given
+                vals = [a[1] if a[0] == "star" else a for a in args] + list(kwargs.values())
+                res = self.build("like", "dataset", None, None, None)
+                c, a_ = self.objs[res[1]]
+                for x in dict.fromkeys(x for v in vals for x in self.vars_of(self.load_elem(v) if v != SC else SC)):
+                    for d in (res[1], c, a_):
+                        self.weak_view(d, x)
+                return res
             if name == "xr.where":
                 xs = self.xr_operands(list(args) + list(kwargs.values()))
                 return self.build_from("arith", "where", xs, data_src=None) if xs else self.fresh("where")
@@ -1399,7 +1408,7 @@ class Eval(Translator):
             return kwargs["out"]
         if kwargs.get("inplace") is not None:
             self.emit("write", r)
-        if not self.is_nda(r):
+        if not self.is_nda(r) and self.kind.get(r) != "pyc":
             xres = self.call_xmethod(recv, attr, args, kwargs, node)
             if xres is not None:
                 return xres
@@ -1543,7 +1552,9 @@ class Eval(Translator):
         if isinstance(target, ast.Subscript):
             base = self.eval(scope, target.value)
             self.eval(scope, target.slice)
-            self.store_into(base, v, self.const_key(scope, target.slice))
+            sl = target.slice
+            named = isinstance(sl, ast.JoinedStr) or (isinstance(sl, ast.Constant) and isinstance(sl.value, str))
+            self.store_into(base, v, self.const_key(scope, sl), named=named)
             return
         if isinstance(target, ast.Attribute):
             base = self.eval(scope, target.value)
@@ -1567,16 +1578,18 @@ class Eval(Translator):
                     self.emit("view", b, src[1])
                     self.sameobj.pop(b, None)
                 elif v != SC:
+                    # x.attrs = d / x.coords = c: the component may from now on be what was assigned
+                    dst = self.comp(b, 1) if target.attr == "attrs" else self.comp(b, 0) if target.attr == "coords" else b
                     for x in self.vars_of(v):
-                        self.weak_view(b, x)
+                        self.weak_view(dst, x)
             return
         if isinstance(target, ast.Starred):
             self.assign(scope, target.value, v, valnode)
             return
         raise Unsupported(f"assignment target {type(target).__name__}")
 
-    def store_into(self, base, v, key=None):
-        """base[...] = v"""
+    def store_into(self, base, v, key=None, named=False):
+        """base[...] = v; `named`: the index is a string (ds['layer'] = …), not a position"""
         if base == SC or base[0] in ("ext",):
             return
         if base[0] in ("glob", "globitem"):
@@ -1595,6 +1608,16 @@ class Eval(Translator):
             elif self.kind.get(b) == "pyc":
                 for x in self.vars_of(v):
                     self.weak_view(b, x)
+            elif named and not self.is_nda(b) and isinstance(v, tuple) and v[0] == "var" and not self.is_nda(v[1]):
+                # ds[name] = raster: a Dataset keeps the variable it is given, not a copy of it
+                x = v[1]
+                self.weak_view(b, x)
+                if b in self.objs:
+                    self.weak_view(self.objs[b][0], self.comp(x, 0))
+                    self.weak_view(self.objs[b][1], self.comp(x, 1))
+                elif x in self.objs:
+                    for y in self.objs[x]:
+                        self.weak_view(b, y)
 
     # ------------------------------------------------------------------------------- statements
     def static_test(self, scope, t):
@@ -1764,8 +1787,13 @@ class Eval(Translator):
                 self.store_into(base, v)
             elif isinstance(t, ast.Attribute):
                 base = self.eval(scope, t.value)
-                for b in self.vars_of(base):
-                    self.emit("write", b)
+                if t.attr in ("data", "values") and base[0] == "var":
+                    self.emit("write", base[1])
+                elif t.attr == "attrs" and base[0] == "var":
+                    self.emit("write", self.comp(base[1], 1))
+                else:
+                    for b in self.vars_of(base):
+                        self.emit("write", b)
             else:
                 raise Unsupported("augmented assignment target")
         elif isinstance(st, ast.Expr):
@@ -2324,6 +2352,20 @@ class MetaExtractor:
                          dims=self.src(m, fn, kw.get("dims"), sigma, "dims"),
                          attrs=self.src(m, fn, kw.get("attrs"), sigma, "attrs"),
                          name=("absent",) if nm is None else (("param", nm.id) if isinstance(nm, ast.Name) else ("other", ast.unparse(nm))))]
+        if isinstance(r, ast.Call) and isinstance(r.func, ast.Attribute) and r.func.attr == "copy" \
+                and isinstance(r.func.value, ast.Name) and r.func.value.id in sigma \
+                and len(assignments_to(fn, r.func.value.id)) == 0 \
+                and all(k.arg in ("deep", "data") for k in r.keywords) and len(r.args) <= 1:
+            # the input used as a template: `p.copy(deep=…, data=out)` has p's coords, dims and attrs
+            p_ = sigma[r.func.value.id]
+            return [dict(kind="ctor", coords=("input", p_), dims=("input", p_), attrs=("input", p_), name=("absent",))]
+        if isinstance(r, ast.Call) and self.tr.ext_name(m, dotted(r.func)) in ("xr.zeros_like", "xr.ones_like", "xr.full_like",
+                                                                                 "xr.empty_like") \
+                and r.args and isinstance(r.args[0], ast.Name) and r.args[0].id in sigma \
+                and len(assignments_to(fn, r.args[0].id)) == 0:
+            # `xr.zeros_like(p)` (filled afterwards) has p's coords, dims and attrs
+            p_ = sigma[r.args[0].id]
+            return [dict(kind="ctor", coords=("input", p_), dims=("input", p_), attrs=("input", p_), name=("absent",))]
         if isinstance(r, ast.Call) and depth < 4:
             callee, args, kws = None, r.args, r.keywords
             if isinstance(r.func, ast.Name):
@@ -2848,6 +2890,20 @@ def t95_ok_return_helper_ctor(agg, flag=None):
     if flag:
         return xr.DataArray(np.zeros(3), coords=agg.coords, dims=agg.dims, attrs=agg.attrs)
     return xr.DataArray(np.ones(3), coords=agg.coords, dims=agg.dims, attrs=agg.attrs)
+
+def t97_dataset_keeps_what_it_is_given(agg):
+    ds = xr.Dataset()
+    ds['layer'] = agg
+    return ds
+
+def t98_ok_dataset_of_fresh(agg):
+    ds = agg.copy(deep=True).to_dataset(name='a')
+    ds['b'] = xr.DataArray(np.zeros(3), coords=agg.coords, dims=agg.dims, attrs=agg.attrs)
+    return ds
+
+def t99_augassign_attrs(agg):
+    agg.attrs |= {'k': 1}
+    return xr.DataArray(np.zeros(3))
 
 def t96_return_either(agg, flag=None):
     if flag:
